@@ -1,8 +1,8 @@
 ---- MODULE MC_MuxRef ----
 (* Composition of two lock-step bound design models: D_MultiplexerR (multiplexer incl. its REFRESH path) and D_Refresher, with
-   abstract, locally legal bank machines that follow the refresh protocol of the real BankMachine (a bank machine presenting a
-   read/write or nothing drops it and grants within DMaxG cycles and closes its row; one presenting ACT/PRE grants only after
-   that command was accepted; grants are held until the refresher releases its request).
+   NB abstract bank machines (A_BankMachine: REG/PRE/ACT/REF with the refresh hand-shake of the real BankMachine; timer waits
+   become at most DMaxG consecutive idle cycles).  MC_BankMachine_abs.cfg checks that the lock-step bound D_BankMachine refines
+   A_BankMachine, so all three parts of this composition are tied to the code.
    Cross-module properties (C04/C05): the refresh request is always eventually served (no deadlock between the direction FSM
    and the refresh hand-over), requests of the bank machines are eventually accepted, and the commands on the registered DFI
    phases satisfy the device clauses (refresh only with all banks closed, tRP/tRFC around it, inter-bank gates). *)
@@ -12,11 +12,11 @@ CONSTANTS tREFI, N, tRP, tRFC, WithZq, tZQCS, ZqPeriod, ZqLatch, TimerCycles,   
           tRFCdev,               \* what the device needs after REF, in controller cycles (= tRFC; one more in the negative control)
           BmRefreshFirst         \* TRUE = the code: REGULAR looks at refresh_req before its command; FALSE = negative control
 VARIABLES tcount, pcount, preq, scount, ecnt, edone, zcount, zcnt, zdone, zpend, rfsm, rcmd, rready,
-          open, gnt, gwait, mid, apd, dev, now, bad, tick
+          open, gnt, gwait, bst, apd, dev, now, bad, tick
 Ref == INSTANCE D_Refresher WITH fsm <- rfsm, cmd <- rcmd, ready <- rready
 Dev == INSTANCE R_DramDevice
 rvars == <<tcount, pcount, preq, scount, ecnt, edone, zcount, zcnt, zdone, zpend, rfsm, rcmd, rready>>
-mvars == <<vars, rvars, open, gnt, gwait, mid, apd, dev, now, bad, tick>>
+mvars == <<vars, rvars, open, gnt, gwait, bst, apd, dev, now, bad, tick>>
 E(ck) == [ck |-> ck, ps |-> 0]
 Worst(c) == IF c = 0 THEN 0 ELSE c * Nph - (Nph - 1)
 DCfg == [nranks |-> 1, nbanks |-> NB, nphases |-> Nph, rdphase |-> RdPhase, wrphase |-> WrPhase, wl |-> WL, blck |-> BLCK, fkhz |-> 100000,
@@ -28,36 +28,24 @@ refReq == Ref!cmdValid                     \* refresh_req of every bank machine
 KindOf(c) == c
 RinOf(valid, last, c, g) == [valid |-> valid, last |-> last, kind |-> KindOf(c), gnt |-> g]
 
-\* What a bank machine may newly present.  The real BankMachine starts a row change (PRE, or ACT on a closed bank) only from
-\* REGULAR, where refresh_req is looked at first; once the precharge was accepted (or an auto-precharge was taken) it is
-\* committed to TRP -> ACTIVATE -> TRCD and presents the ACT regardless of the request (mid).
-LegalKinds(i) == IF mid[i] THEN {"NONE", "ACT"}
-                 ELSE IF open[i] THEN (IF refReq THEN {"NONE", "RD", "WR"} ELSE {"NONE", "RD", "WR", "PRE"})
-                 ELSE (IF refReq THEN {"NONE"} ELSE {"NONE", "ACT"})
-\* bank machines: normal behaviour as in MC_Multiplexer; under a refresh request the ones in REGULAR grant (within DMaxG cycles)
+\* Bank machines: A_BankMachine (MC_BankMachine checks that every step of the lock-step bound D_BankMachine is one of its steps).
+\* BmRefreshFirst = FALSE is the negative control: REGULAR keeps presenting (and retiring) its read/write under a refresh request.
+Abs == INSTANCE A_BankMachine
+BmRec == [b : Abs!States, k : Kinds, o : BOOLEAN, g : BOOLEAN]
+Succ(i, rq2) == {x \in BmRec :
+                   IF BmRefreshFirst THEN Abs!Step(bst[i], req[i], open[i], gnt[i], accepted(i), refReq, x.b, x.k, x.o, x.g, rq2, gwait[i] < DMaxG)
+                   ELSE \/ Abs!Step(bst[i], req[i], open[i], gnt[i], accepted(i), refReq, x.b, x.k, x.o, x.g, rq2, gwait[i] < DMaxG)
+                        \/ (bst[i] = "REG" /\ open[i] /\ x.b = "REG" /\ x.o /\ ~x.g /\ x.k \in {"RD", "WR"} /\ (req[i] = "NONE" \/ accepted(i) \/ x.k = req[i]))
+                        \/ (bst[i] = "REG" /\ req[i] \in {"RD", "WR"} /\ accepted(i) /\ x.b = "ACT" /\ ~x.o /\ ~x.g /\ x.k = "ACT")}
+RECURSIVE Prod(_, _)
+Prod(n, rq2) == IF n = 0 THEN {<<>>} ELSE {Append(p, x) : p \in Prod(n - 1, rq2), x \in Succ(n - 1, rq2)}
 BmNext ==
-  /\ \E gr \in [BMs -> BOOLEAN] :
-       /\ gnt' = [i \in BMs |-> IF ~refReq THEN FALSE
-                                ELSE gnt[i] \/ (~mid[i] /\ req[i] \in {"NONE", "RD", "WR"} /\ ~accepted(i) /\ (gr[i] \/ gwait[i] >= DMaxG))]
-       /\ gwait' = [i \in BMs |-> IF refReq /\ ~gnt[i] /\ ~mid[i] /\ req[i] \in {"NONE", "RD", "WR"} THEN gwait[i] + 1 ELSE 0]
-  /\ \E ap \in [BMs -> BOOLEAN] :
-       /\ mid' = [i \in BMs |-> IF accepted(i) /\ req[i] = "PRE" THEN TRUE
-                                ELSE IF accepted(i) /\ req[i] \in {"RD", "WR"} /\ ap[i] THEN TRUE       \* auto-precharge
-                                ELSE IF accepted(i) /\ req[i] = "ACT" THEN FALSE ELSE mid[i]]
-       /\ apd' = {i \in BMs : accepted(i) /\ req[i] \in {"RD", "WR"} /\ ap[i]}         \* the CAS now on the registered DFI carries A10
-       /\ open' = [i \in BMs |-> IF gnt'[i] THEN FALSE                                  \* row_close in REFRESH
-                                 ELSE IF accepted(i) /\ req[i] = "ACT" THEN TRUE
-                                 ELSE IF accepted(i) /\ (req[i] = "PRE" \/ (req[i] \in {"RD", "WR"} /\ ap[i])) THEN FALSE ELSE open[i]]
-  /\ req' \in [BMs -> Kinds]
-  /\ LET rr == Ref!cmdValid'                                                       \* refresh_req gates cmd.valid of REGULAR combinationally
-         NoCas(S) == IF rr /\ BmRefreshFirst THEN S \ {"RD", "WR"} ELSE S IN
-     \A i \in BMs :
-       IF gnt'[i] THEN req'[i] = "NONE"                                            \* REFRESH state presents nothing
-       ELSE IF req[i] \in {"ACT", "PRE"} /\ ~accepted(i) THEN req'[i] = req[i]     \* held until accepted
-       ELSE IF req[i] \in {"RD", "WR"} /\ ~accepted(i) THEN req'[i] = (IF rr /\ BmRefreshFirst THEN "NONE" ELSE req[i])
-       ELSE IF accepted(i) /\ req[i] = "ACT" THEN req'[i] \in NoCas({"NONE", "RD", "WR"})  \* TRCD, then REGULAR
-       ELSE IF mid'[i] THEN req'[i] = "ACT"                                        \* tRP/tRCD waits are MC_BankMachine's subject
-       ELSE req'[i] \in NoCas(LegalKinds(i))
+  \E p \in Prod(NB, Ref!cmdValid') :
+     /\ bst' = [i \in BMs |-> p[i + 1].b] /\ req' = [i \in BMs |-> p[i + 1].k]
+     /\ open' = [i \in BMs |-> p[i + 1].o] /\ gnt' = [i \in BMs |-> p[i + 1].g]
+     /\ gwait' = [i \in BMs |-> IF Abs!Waiting(bst[i], refReq, p[i + 1].b, p[i + 1].k, p[i + 1].g) THEN gwait[i] + 1 ELSE 0]
+     \* the CAS now on the registered DFI carries A10 when the bank machine went on to re-activate without a PRE
+     /\ apd' = {i \in BMs : accepted(i) /\ req[i] \in {"RD", "WR"} /\ p[i + 1].b = "ACT"}
 
 EvOf(p) == LET o == dfi[p + 1] IN
            [c |-> o.kind, t |-> now * Nph + p, ph |-> p, ranks |-> <<0>>, b |-> o.bm, a |-> 0,
@@ -80,14 +68,14 @@ Step(obs) ==
      ELSE UNCHANGED <<dev, now, bad>>
 MInit == /\ Init /\ Ref!Init /\ rready = FALSE
          /\ req = [i \in BMs |-> "NONE"] /\ rin = RinOf(FALSE, FALSE, "NOP", FALSE)
-         /\ open = [i \in BMs |-> FALSE] /\ gnt = [i \in BMs |-> FALSE] /\ gwait = [i \in BMs |-> 0] /\ mid = [i \in BMs |-> FALSE] /\ apd = {}
+         /\ open = [i \in BMs |-> FALSE] /\ gnt = [i \in BMs |-> FALSE] /\ gwait = [i \in BMs |-> 0] /\ bst = [i \in BMs |-> "REG"] /\ apd = {}
          /\ dev = Dev!InitDev(DCfg) /\ now = 0 /\ bad = {} /\ tick = 0
 MSpec == MInit /\ [][Step(TRUE)]_mvars
 FairSpec == MInit /\ [][Step(FALSE)]_mvars /\ WF_mvars(Step(FALSE))
 
 Sat == 2 + Dev!MaxI(Dev!MaxI(Worst(tRRD), Worst(tFAW)), Dev!MaxI(Dev!MaxI(Worst(tCCD), WL + BLCK + tWTRdev), Dev!MaxI(Worst(tRFCdev), Worst(tRP))))
 Age(t) == IF now * Nph - t > Sat THEN Sat ELSE now * Nph - t
-View == <<regs, req, rin, rvars, open, gnt, gwait, mid, apd, bad, dev.open, Age(dev.acts[0][1]), Age(dev.acts[0][2]), Age(dev.acts[0][3]), Age(dev.acts[0][4]),
+View == <<regs, req, rin, rvars, open, gnt, gwait, bst, apd, bad, dev.open, Age(dev.acts[0][1]), Age(dev.acts[0][2]), Age(dev.acts[0][3]), Age(dev.acts[0][4]),
           Age(dev.tCas[0]), Age(dev.tWrEAny[0]), Age(dev.tRef[0]), Age(dev.tZq[0]), [i \in BMs |-> Age(dev.tPre[i])]>>
 Legal == bad = {}
 RefreshServed == refReq ~> (fsm = "REFRESH")
